@@ -395,9 +395,11 @@ func ExploreLevels(sc *Scenario, shard int, deadline time.Time, from, to int) *S
 			st.States = pass.Execs
 		}
 		maxInto(st, pass)
-		if len(found) > 0 {
+		if len(found) > 0 && !allKnownFindings(found) {
 			break // the first counterexamples have the fewest deviations; deeper passes add nothing
 		}
+		// ... unless everything found so far is a listed known finding: then the deeper levels are still explored,
+		// so that a known finding at a shallow level cannot hide a different violation of the same scenario below it
 	}
 	st.Exhaustive = st.CapHit == "" && st.HarnessErr == ""
 	// confirm and describe violations
@@ -490,4 +492,25 @@ func deviationsOf(e *vsched.Exec) [][2]int {
 		}
 	}
 	return out
+}
+
+// ExploreProperty is the property the process explores for (set by Main and NewReport): ExploreLevels consults the
+// committed known findings of that property to decide whether a level's findings end the deepening.
+var ExploreProperty string
+
+var knownForExplore *Known
+
+func allKnownFindings(found map[string]*Found) bool {
+	if ExploreProperty == "" {
+		return false
+	}
+	if knownForExplore == nil {
+		knownForExplore = LoadKnown()
+	}
+	for k := range found {
+		if knownForExplore.Match(ExploreProperty, k) == "" {
+			return false
+		}
+	}
+	return true
 }
